@@ -1249,6 +1249,45 @@ theorem indicesOf_unique {h : List String} : ∀ {fs : List String} {a b : List 
           exact Except.ok.inj this
         rw [e, ih ha.2 hb.2]
 
+theorem lookupT_setTable_ne : ∀ (ts : Tables) (m n : String) (t : Table), m ≠ n →
+    lookupT (setTable ts m t) n = lookupT ts n := by
+  intro ts
+  induction ts with
+  | nil => intro m n t _; rfl
+  | cons e rest ih =>
+    intro m n t hne
+    unfold setTable
+    split
+    · rename_i he
+      unfold lookupT
+      have h1 : ¬ (m = n) := hne
+      have h2 : ¬ (e.1 = n) := by rw [he]; exact hne
+      simp [h1, h2]
+    · unfold lookupT
+      split
+      · rfl
+      · exact ih m n t hne
+
+theorem lookupT_append_ne : ∀ (ts : Tables) (m n : String) (t : Table), m ≠ n →
+    lookupT (ts ++ [(m, t)]) n = lookupT ts n := by
+  intro ts
+  induction ts with
+  | nil => intro m n t hne; simp [lookupT, hne]
+  | cons e rest ih =>
+    intro m n t hne
+    simp only [List.cons_append]
+    unfold lookupT
+    split
+    · rfl
+    · exact ih m n t hne
+
+theorem lookupT_setOrAdd_ne (ts : Tables) (m n : String) (t : Table) (hne : m ≠ n) :
+    lookupT (setOrAdd ts m t) n = lookupT ts n := by
+  unfold setOrAdd
+  cases lookupT ts m with
+  | none => exact lookupT_append_ne ts m n t hne
+  | some _ => exact lookupT_setTable_ne ts m n t hne
+
 /-! ## rectangularity -/
 
 def AllRect (ts : Tables) : Prop := ∀ e ∈ ts, e.2.Rect
